@@ -649,6 +649,9 @@ func (e *Enc) encodeErrorsAs(st *bstate, call *ssa.CallCommon, pos token.Pos) Va
 func (e *Enc) guardsFor(t types.Type) []*Guard {
 	var out []*Guard
 	for _, g := range e.P.reg.Guards {
+		if e.P.tpkgs[g.Pkg] == nil {
+			continue // package not part of this program
+		}
 		gt, err := e.evalType(g.TypeText, e.P.tpkgs[g.Pkg])
 		if err != nil {
 			e.errors = append(e.errors, fmt.Sprintf("%s: guarded: %v", g.Src, err))
@@ -774,6 +777,9 @@ func (e *Enc) monitorInv(fr *frame, st *bstate, mu ssa.Value, check bool, pos to
 	}
 	muName := si.St.Field(fa.Field).Name()
 	for i, m := range e.P.reg.Monitors {
+		if e.P.tpkgs[m.Pkg] == nil {
+			continue
+		}
 		mt, err := e.evalType(m.TypeText, e.P.tpkgs[m.Pkg])
 		if err != nil || !types.Identical(mt, types.Unalias(ot)) || m.Mutex != muName {
 			continue
